@@ -6,6 +6,7 @@ import (
 	"math/rand"
 	"os"
 	"os/exec"
+	"sort"
 	"strings"
 	"time"
 )
@@ -168,6 +169,28 @@ func genC19(r *rand.Rand, tier string, env *Env) []Case {
 		// the same inside an include file and an exclusion file
 		args := append(append([][]byte{}, empty...), []byte("##!> include cyc\n##!> include-except words cyc\nx\n"), []byte("i"), []byte("cyc.ra"), []byte("##!> define a p{{b}}\n##!> define b {{a}}q\n{{a}}\nw\n"), []byte("i"), []byte("words.ra"), []byte("w\nv\n"))
 		cases = append(cases, Case{Kind: "fixed", Ops: []Op{{"gen.run", args}}, Oracles: []Op{{"c19.nocrash", args}, {"c19.cli", args}}})
+	}
+	{
+		// include files at the edges of what a file can hold: nothing, only directives (prefix / suffix / definitions /
+		// comments, no entry), a single byte, no final newline — included, nested, excluded, as exclusion files
+		edge := map[string]string{"e-empty": "", "e-pfx": "##!^ pre\n", "e-sfx": "##!$ suf", "e-both": "##!^ p\n##!$ s\n", "e-defs": "##!> define x y\n", "e-comment": "##! c", "e-nl": "\n",
+			"e-one": "a", "e-pfxdef": "##!^ {{x}}\n##!> define x 1\n", "e-nest": "##!> include e-pfx\n##!> include e-empty\n", "e-blank": " \t \n", "e-bothnest": "##!^ p\n##!> include e-sfx\n"}
+		var files [][]byte
+		var names []string
+		for k := range edge {
+			names = append(names, k)
+		}
+		sort.Strings(names)
+		for _, k := range names {
+			files = append(files, []byte("i"), []byte(k+".ra"), []byte(edge[k]))
+		}
+		for _, k := range names {
+			for _, prog := range []string{"##!> include " + k + "\nfoo\n", "##!> include-except " + k + " e-one\n", "##!> include-except e-one " + k + "\nz\n",
+				"##!> cmdline unix\n##!> include " + k + "\n##!<\n", "##!> include " + k + " -- @ ~\n"} {
+				args := append(append(append([][]byte{}, empty...), []byte(prog)), files...)
+				cases = append(cases, Case{Kind: "edge-include", Ops: []Op{{"gen.run", args}}, Oracles: []Op{{"c19.nocrash", args}}})
+			}
+		}
 	}
 	// include cycles, through the binary only (in process a runaway recursion would take the worker with it)
 	for _, cyc := range [][][]byte{
